@@ -1199,7 +1199,13 @@ fn gen_c05(seed: u64, tier: Tier) -> Scenario {
     let mut a = gen_config(&mut rng, &dom);
     let nearest = (a.kind.is_sinc() && a.interp % 4 == 0) || (a.kind.is_fast() && a.degree % 5 == 0);
     if nearest {
-        a.ratio = dyadic_ratio(&mut rng);
+        // exact-grid ratios; the "deep position" wild case keeps its very low ratio as 1/k with an integer step k
+        let k = (1.0 / a.ratio).round();
+        if a.ratio < 1.0 / 32.0 && 1.0 / (1.0 / k) == k {
+            a.ratio = 1.0 / k;
+        } else {
+            a.ratio = dyadic_ratio(&mut rng);
+        }
     }
     let mut b = a.clone();
     let mode = rng.below(4);
@@ -1299,7 +1305,19 @@ fn gen_c05(seed: u64, tier: Tier) -> Scenario {
     let afford = (tier_budget(tier) * 1.5 / per_frame.max(1.0)) as u64;
     let min_frames = steps.last().map(|s| s.0 + 200).unwrap_or(0);
     let want = rng.log_usize(200, q(tier, 20_000, 60_000)) as u64;
-    let frames = want.min(afford.max(300)).max(min_frames);
+    let mut frames = want.min(afford.max(300)).max(min_frames);
+    // both partitions should at least get through the longer one's first call (a fixed-output type at a very low
+    // ratio consumes a million frames in one call: what happens late in that call is otherwise never compared)
+    let call_in = |c: &Config| -> u64 {
+        match c.kind {
+            Kind::SincOut | Kind::FastOut => (c.chunk as f64 / c.nominal_ratio().max(1e-9)).ceil() as u64 + 64,
+            _ => c.chunk as u64,
+        }
+    };
+    let longest = call_in(&a).max(call_in(&b));
+    if !a.kind.is_fft() && frames < longest && (longest as f64) * per_frame <= tier_budget(tier) * 8.0 {
+        frames = longest + 1;
+    }
     sc.config = a;
     sc.signal = if rng.chance(0.7) { Signal::Noise { seed: rng.next() } } else { Signal::Impulses { seed: rng.next(), period: rng.usize_in(5, 300) as u32, floor: 0.1 } };
     sc.profile = profile.to_string();
